@@ -21,11 +21,12 @@ ENC = ("indi.transport.buffer.Buffer.append", "indi.transport.buffer.Buffer.data
        "indi.transport.buffer.Buffer._cleanup_buffer", "indi.transport.buffer.Buffer._cleanup_beginning",
        "indi.transport.buffer.Buffer._find_message_in_buffer", "indi.transport.buffer.Buffer.process")
 BOUNDS = {
-    "quick": "2 messages of 4..5 symbolic characters (any code point) with optional filler, every partition into <=3 pieces "
-             "(symbolic cut offsets), threshold disabled / symbolic T in [0,12] with len(m) <= T; tags {a,b}",
-    "thorough": "as quick plus 3 messages, lengths 4..6, and the library's real tag list",
+    "quick": "2 messages of 4..5 symbolic characters (any code point); fillers none / newline / newline+declaration+newline; every "
+             "2-piece partition (symbolic cut, explicit fork); threshold disabled / symbolic T in [max len, 12]; tags {a,b}; plus concrete long "
+             "messages (1500..4100 characters) read in 700..4096-character chunks",
+    "thorough": "as quick plus every 3-piece partition of the 4+4 family, the 5+5 family and the declaration filler",
 }
-OUTSIDE = ("expat itself (premises F1-F6, validated on a concrete corpus every run); messages longer than 6 symbolic characters; "
+OUTSIDE = ("expat itself (premises F1-F6, validated on a concrete corpus every run); messages longer than 5 symbolic characters; three or more messages in one stream (two suffice for the induction over the buffer state); "
            "equivalent XML spellings (inside expat; at this level a spelling is another mi)")
 ASSUMPTIONS = [
     "F1 a strict prefix of a well-formed element is not a well-formed document",
@@ -249,6 +250,11 @@ def long_message(mode):
         return verdict([t.index for t in got if t is not None] == [0, 1] and len(got) == 2,
                        "a long message was not delivered intact")
     return body
+
+
+def validate_stubs():
+    from props.bufferlib import validate_xml_facts
+    return validate_xml_facts()
 
 
 def signature(cond_name, args, detail):
